@@ -202,5 +202,5 @@ def run(repo, seed, tier):
             'rule': 'two sys.path roots in either order; node a in each root absent/module/package/namespace with child b '
                     'absent/module/package; package __init__ empty or re-importing b; 9 import forms (absolute, aliased, '
                     'from-import, relative level 1 and 2); oracle = the file the interpreter loads in a child process',
-            'samples': samples, 'violations': uniq[:12],
+            'samples': samples, 'violations': violations[:300],
             'violation_counts': {k: len(v) for k, v in seen.items()}}
